@@ -144,4 +144,9 @@ theorem encodeHeaderCompressed_word (c u : BitVec 32) (sc : Bool) (hc : c.toNat 
     rw [Nat.shiftLeft_eq]; omega
   cases sc <;> simp [BitVec.toNat_or, BitVec.toNat_shiftLeft, h1, h2, h3]
 
+/-- `codec.headerLength` as written is the model's `headerLength` -/
+theorem headerLength_tie (c : Option Segment.PayloadCompressor) :
+    (headerLength c.isNone).toNat = Segment.headerLength c := by
+  cases c <;> rfl
+
 end Cql.GoFnTie
